@@ -33,7 +33,7 @@ class Violation(Exception):
 class Sub:
     def __init__(self, name, fn, strategy=None, cases=None, quick=100, thorough=None,
                  shards_quick=1, shards_thorough=8, variant="opt", timeout_quick=420,
-                 timeout_thorough=4 * 3600, exhaustive=False, weight=1, journal=True):
+                 timeout_thorough=3600, exhaustive=False, weight=1, journal=True):
         self.name = name
         self.fn = fn
         self.strategy = strategy      # hypothesis strategy or callable(tier)->strategy
